@@ -215,6 +215,10 @@ m("C11-benign-stronger-cas", "benign", ["C11"], "qs.hpp",
   [["\tvoid await_barrier(qs_node *node) {\n\t\t// Advance the desired QS counter.\n\t\tauto target = _dom->_qs_counter.load(std::memory_order_relaxed) + 2;\n\t\tauto c = _dom->_desired_qs_counter.load(std::memory_order_relaxed);\n\t\twhile(c < target) {\n\t\t\tif(_dom->_desired_qs_counter.compare_exchange_weak(c, target,\n\t\t\t\t\tstd::memory_order_relaxed, std::memory_order_relaxed))",
     "\tvoid await_barrier(qs_node *node) {\n\t\t// Advance the desired QS counter.\n\t\tauto target = _dom->_qs_counter.load(std::memory_order_relaxed) + 2;\n\t\tauto c = _dom->_desired_qs_counter.load(std::memory_order_relaxed);\n\t\twhile(c < target) {\n\t\t\tif(_dom->_desired_qs_counter.compare_exchange_weak(c, target,\n\t\t\t\t\tstd::memory_order_acq_rel, std::memory_order_acquire))"]],
   "the CAS that raises the desired period uses stronger orders")
+m("C11-await-cas-loop-leaves-on-failure", "breaking", ["C11"], "qs.hpp",
+  [["\tvoid await_barrier(qs_node *node) {\n\t\t// Advance the desired QS counter.\n\t\tauto target = _dom->_qs_counter.load(std::memory_order_relaxed) + 2;\n\t\tauto c = _dom->_desired_qs_counter.load(std::memory_order_relaxed);\n\t\twhile(c < target) {\n\t\t\tif(_dom->_desired_qs_counter.compare_exchange_weak(c, target,",
+    "\tvoid await_barrier(qs_node *node) {\n\t\t// Advance the desired QS counter.\n\t\tauto target = _dom->_qs_counter.load(std::memory_order_relaxed) + 2;\n\t\tauto c = _dom->_desired_qs_counter.load(std::memory_order_relaxed);\n\t\twhile(c < target) {\n\t\t\tif(!_dom->_desired_qs_counter.compare_exchange_weak(c, target,"]],
+  "await_barrier leaves its CAS loop on failure instead of success (campaign survivor qs.hpp:209): a registration is lost only when another agent raises the desired period between the load and the CAS but not far enough - driven by the rare-branch witness stage")
 m("C14-benign-growth-factor", "benign", ["C14", "C16"], "hash_map.hpp",
   [["size_t new_capacity = 2 * _size;", "size_t new_capacity = 4 * _size;"]],
   "the table grows by another factor")
